@@ -102,9 +102,19 @@ def merge_agg(agg, r):
     if isinstance(agg['shapes'], list):
         agg['shapes'] = set(agg['shapes'])
     agg['shapes'].update(sh)
-    room = 40 - len(agg['violations'])
-    if room > 0:
-        agg['violations'].extend(r.get('violations', [])[:room])
+    # keep a few witnesses PER SIGNATURE (a frequent known finding must not crowd out anything else)
+    totals = agg.setdefault('sig_counts', {})
+    kept = agg.setdefault('sig_kept', {})
+    fwd = {}
+    for v in r.get('violations', []):
+        sig = v['sig']
+        fwd[sig] = fwd.get(sig, 0) + 1
+        if kept.get(sig, 0) < 3 and len(agg['violations']) < 150:
+            kept[sig] = kept.get(sig, 0) + 1
+            agg['violations'].append(v)
+    sub = r.get('sig_counts')
+    for sig, n in (sub if sub is not None else fwd).items():
+        totals[sig] = totals.get(sig, 0) + n
     agg['n_violations_raw'] = agg.get('n_violations_raw', 0) + len(r.get('violations', []))
     if len(agg['samples']) < 3 and r.get('sample') is not None:
         agg['samples'].append(r['sample'])
@@ -160,7 +170,7 @@ def report(prop, tier, base_seed, mod, agg, broken, quiet=False):
     for v in agg['violations']:
         sig = v['sig']
         if sig in known:
-            known_hits[sig] = known_hits.get(sig, 0) + 1
+            known_hits[sig] = agg.get('sig_counts', {}).get(sig, 1)
             continue
         if sig in seen_sigs:
             seen_sigs[sig] += 1
